@@ -429,6 +429,36 @@ pub fn dispatch(t: &[Tok]) -> String {
                 (_, Err(e)) => format!("hasherr {:?}", e),
             }
         }),
+        // race V k a b data: k threads released together each run compare(a,b) and hash(data) -- when this is
+        // the first case of a process these are the calls that trigger CPU feature detection
+        "race" => for_variant!(s(t, 1), T, {
+            let k = n(t, 2) as usize;
+            let (ha, hb2) = (T::try_from(b(t, 3)).unwrap(), T::try_from(b(t, 4)).unwrap());
+            let data = b(t, 5).to_vec();
+            let barrier = std::sync::Arc::new(std::sync::Barrier::new(k));
+            let mut hs = vec![];
+            for i in 0..k {
+                let (bar, d) = (barrier.clone(), data.clone());
+                hs.push(std::thread::spawn(move || {
+                    bar.wait();
+                    // half of the threads start with the comparison, half with the generator
+                    let (x, y) = if i % 2 == 0 {
+                        let x = ha.compare(&hb2);
+                        (x, res_hash(tlsh::hash_buf_for::<T>(&d)))
+                    } else {
+                        let y = res_hash(tlsh::hash_buf_for::<T>(&d));
+                        (ha.compare(&hb2), y)
+                    };
+                    format!("{} {}", x, y)
+                }));
+            }
+            let rs: Vec<String> = hs.into_iter().map(|h| h.join().unwrap()).collect();
+            if rs.iter().all(|r| r == &rs[0]) {
+                rs[0].clone()
+            } else {
+                format!("RACE-MISMATCH {:?}", rs).replace(' ', "_")
+            }
+        }),
         "maxdist" => for_variant!(s(t, 1), T, { format!("{}", T::max_distance(cmp_mode(s(t, 2)))) }),
         "partmax" => for_variant!(s(t, 1), T, {
             format!(
